@@ -179,6 +179,20 @@ CHECKS = {
              "ordinate, and the skeleton (type, nesting, ordinate count, bbox) must be unchanged.",
         note=NOTE_COMMON + "strconv.FormatFloat itself is trusted stdlib; the run tests it against the exact contract on every emitted number.",
     ),
+    "C17": dict(
+        technique="Lean 4 theorems over an interleaving semantics (every schedule of threads that write only their own locations leaves shared memory unchanged, "
+                  "is step-for-step equivalent to the solo runs, returns the solo results and has no conflicting access pair) + effect analysis regenerated from /repo's "
+                  "SSA on every run (Tie.effects_clean by decide) + snapshot / solo-vs-concurrent correspondence, also under the Go race detector",
+        text="C17_shared_unchanged, C17_solo_equivalent, C17_result_deterministic, C17_race_free: for every number of threads, every program following the discipline "
+             "'read shared or own locations, write own locations only' and every schedule, arguments and package variables keep their values, each call is exactly where "
+             "its solo run is after as many steps (so it returns what it returns alone) and no two accesses of different calls conflict. The discipline is tied to the code "
+             "by the may-write summary of all 351 exported functions recomputed from /repo's current SSA each run and required (Tie.effects_clean, decide) to stay inside "
+             "an explicit allow-list (streams, receivers of documented mutators, output parameters; never a package variable). Each run also calls the non-mutating API on "
+             "generated inputs with bitwise argument snapshots, compares 6-fold concurrent results with solo results, and repeats the batches under -race.",
+        note=NOTE_COMMON + "Level is partial in the sense of DESIGN §5 C17: the theorems are about the abstract semantics; the effect analysis that discharges their hypothesis "
+             "for the Go code is a trusted translator (tested by the correspondence), and the Go memory model, compiler and standard library are outside the model. "
+             "The race-detector runs are exploration, used as the failing-input search and as a test of the analysis.",
+    ),
 }
 
 _PENDING = "check not built yet in this session (work in progress; see DESIGN.md §9 build order)"
